@@ -128,6 +128,13 @@ def fixed_named(rng, t):
     for pl in (1, 2):
         for info, acts in multi[pl]:
             w = [rng.expovariate(1.0) + 1e-3 for _ in acts]
+            z = rng.random()
+            if z < 0.2:
+                # a pure row, or a row with zero entries: whole subtrees (and the infosets in them) become unreachable
+                k = rng.randrange(len(acts))
+                w = [1.0 if j == k else 0.0 for j in range(len(acts))]
+            elif z < 0.35 and len(acts) >= 2:
+                w[rng.randrange(len(acts))] = 0.0
             s = sum(w)
             prof[pl][info] = {a: x / s for a, x in zip(acts, w)}
         for info, act in singles[pl].items():
